@@ -232,6 +232,59 @@ func streamSrvAsm(seed uint64, thorough bool) {
 	for i := 0; i < 10*vol; i++ {
 		srvLongCuts(r, 1, srvStream(r, srvStreamOpts{maxFrames: 3, size: 0, badPct: 20, tailPct: 20}), 0, 10)
 	}
+	// --- frames whose MBAP length field exceeds the largest legal ADU, a normal request behind them ---
+	ro := newRng(seed ^ 0x0ae5)
+	for v := 0; v < vol; v++ {
+		srvOversizeStreams(ro, func(s []byte) { srvBigCuts(ro, s) })
+	}
+}
+
+// srvFixedChunks cuts s into chunks of n bytes
+func srvFixedChunks(s []byte, n int) [][]byte {
+	var cuts []int
+	for p := n; p < len(s); p += n {
+		cuts = append(cuts, p)
+	}
+	return srvCut(s, cuts)
+}
+
+// srvBigCuts: a long stream whole, in the 300-byte slices of the connection loop, byte by byte and
+// in other fixed sizes, with single cuts at the interesting and at random positions, and random cut sets
+func srvBigCuts(r *rng, s []byte) {
+	n := len(s)
+	srvAsmCase(0, [][]byte{s})
+	for _, sz := range []int{300, 1, 7, 64, 299, 301} {
+		srvAsmCase(0, srvFixedChunks(s, sz))
+	}
+	first := 6 + int(s[4])<<8 + int(s[5]) // end of the oversize frame
+	pos := map[int]bool{}
+	for i := 1; i <= 20; i++ {
+		pos[i] = true
+	}
+	for _, c := range []int{first, 300, 600, 900, n - 12, n - 4} {
+		for d := -2; d <= 2; d++ {
+			pos[c+d] = true
+		}
+	}
+	for i := 0; i < 15; i++ {
+		pos[1+r.intn(n-1)] = true
+	}
+	for p := range pos {
+		if p <= 0 || p >= n {
+			delete(pos, p)
+		}
+	}
+	var ps []int
+	for p := range pos {
+		ps = append(ps, p)
+	}
+	sort.Ints(ps)
+	for _, p := range ps {
+		srvAsmCase(0, srvCut(s, []int{p}))
+	}
+	for k := 0; k < 8; k++ {
+		srvAsmCase(0, srvCut(s, srvRandomCuts(r, n)))
+	}
 }
 
 // ---------- srvconn ----------
@@ -381,6 +434,16 @@ func streamSrvConn(seed uint64, thorough bool) {
 		s := srvStream(r, srvStreamOpts{maxFrames: 4, size: 2, tailPct: 20})
 		srvEmitConn(g, 0, 1, [][]byte{s})
 		srvEmitConn(g, 0, 2, [][]byte{s})
+	}
+	// frames whose MBAP length field exceeds the largest legal ADU, a normal request behind them
+	ro := newRng(seed ^ 0x0ae6)
+	for v := 0; v < vol; v++ {
+		srvOversizeStreams(ro, func(s []byte) {
+			srvEmitConn(g, 0, 1, [][]byte{s}) // one write: the pipe hands it over in 300-byte reads
+			srvEmitConn(g, 0, 2, [][]byte{s})
+			srvEmitConn(g, 0, 0, srvLockstepChunks(ro, s))
+			srvEmitConn(g, 0, 1, srvCut(s, srvRandomCuts(ro, len(s))))
+		})
 	}
 	ok := g.stop()
 	g1 := newSrvRig(1) // the silent handler: no Write call at all
